@@ -43,7 +43,24 @@ def programs(draw, feats=ALL_FEATS, min_nodes=2, max_nodes=8, clean=True, modes=
     feats = set(feats)
     b = _B()
     n_nodes = draw(st.integers(min_nodes, max_nodes))
-    mode_st = st.sampled_from(list(modes))
+    mode_w = {'gated': 4, 'thread': 2, 'process': 1, 'coro': 1, 'inline': 1}
+    mode_st = st.sampled_from([m for m in modes for _ in range(mode_w.get(m, 1))])
+    wide = draw(st.booleans())
+    # shape: 'layered' programs have explicit layers (wide generations => many completions outstanding at once)
+    layered = layered or draw(st.integers(0, 9)) < 6
+    layer_of = {'n0': 0}
+    if layered:
+        remaining = n_nodes - 2
+        li = 1
+        k = 1
+        while remaining > 0:
+            w = draw(st.sampled_from([x for x in (1, 2, 2, 3, 3, 4) if x <= remaining]))
+            for _ in range(w):
+                layer_of[f'n{k}'] = li
+                k += 1
+            remaining -= w
+            li += 1
+        layer_of[f'n{n_nodes - 1}'] = li
     inp = {'id': 'n0', 'params': [], 'mode': draw(mode_st)}
     b.nodes.append(inp)
     b.idx['n0'] = inp
@@ -58,10 +75,19 @@ def programs(draw, feats=ALL_FEATS, min_nodes=2, max_nodes=8, clean=True, modes=
         def readable(x, used=used):
             return x not in used and x not in b.cands and x not in b.rec_dests and x not in b.sealed
 
-        def pick(pred=readable, used=used):
+        def pick(pred=readable, used=used, nid=nid):
             pool = [n['id'] for n in b.nodes if pred(n['id'])]
             if not pool:
                 return None
+            fresh = [x for x in pool if x not in b.consumed and x != 'n0']
+            prev = [x for x in pool if layer_of.get(x) == layer_of.get(nid, -9) - 1] if layered else []
+            if prev and draw(st.integers(0, 5)) != 0:
+                pf = [x for x in prev if x in fresh]
+                pool = pf if pf and draw(st.integers(0, 3)) != 0 else prev
+            elif fresh and draw(st.integers(0, 2)) != 0:
+                pool = fresh
+            elif wide and len(pool) > 2 and pred is readable:
+                pool = pool[:max(2, (len(pool) + 1) // 2)]
             x = draw(st.sampled_from(pool))
             used.add(x)
             return x
@@ -213,7 +239,7 @@ def _try_rec(draw, b, used, clean):
 
 
 @st.composite
-def variants(draw, program, feats=ALL_FEATS, x=None, p_fail=25):
+def variants(draw, program, feats=ALL_FEATS, x=None, p_fail=9):
     feats = set(feats)
     cons = S.consumers(program)
     rec_max = {}
@@ -229,7 +255,7 @@ def variants(draw, program, feats=ALL_FEATS, x=None, p_fail=25):
             labels = []
             for m in sw:
                 labels += [l for l, _ in m[3]]
-            if 'unknown_label' in feats and draw(st.integers(0, 9)) == 0:
+            if 'unknown_label' in feats and draw(st.integers(0, 14)) == 0:
                 beh['label'] = 'NOPE'
             else:
                 beh['label'] = draw(st.sampled_from(sorted(set(labels))))
